@@ -62,8 +62,27 @@ def byname_sequences(rng):
         yield Case("data-exec", lines, None, {"text": text, "kind": "exec", "abstract": (items, decls)})
 
 
+def split_boundary_cases(rng):
+    """Variables placed so that the address of the variable — or of one of its elements — has low twelve bits around the
+    points where the lui/addi split of an address changes (0x7FC, 0x800, 0x804, 0xFFC, 0x000): la, load and store by name,
+    plain and indexed. Independent of the seed."""
+    for pad in (510, 511, 512, 513, 1022, 1023, 1024, 1535, 1536):
+        decls = [("pad", "zero", pad), ("v", "word", [101, 202, 303, 404]), ("h", "half", [7, 8, 9]), ("b", "byte", [1, 2, 3])]
+        for kind in ("la", "loadv", "storev"):
+            items = [("li", 7, 0x1234567)]
+            for nm, mns in (("v", ("lw", "sw")), ("h", ("lhu", "sh")), ("b", ("lbu", "sb"))):
+                for idx in (None, 1, 2):
+                    items.append(("la", 5, nm, idx) if kind == "la" else ("loadv", mns[0], 6, nm, idx) if kind == "loadv" else ("storev", mns[1], 7, nm, idx, 28))
+                    if kind != "storev":
+                        items.append(("storev", "sw", 5 if kind == "la" else 6, "pad", len(items) % 8, 29))          # keep every result visible
+            text = rvasmgen.render(rng, items, decls)
+            lines = ["sim.new single 1 - -", f"sim.load {rvasmgen.hx(text)}", "sim.arch", "sim.run 400", "sim.arch"]
+            yield Case("data-exec", lines, None, {"text": text, "kind": "exec", "abstract": (items, decls)})
+
+
 def cases(rng, tier):
     yield from byname_sequences(rng)
+    yield from split_boundary_cases(rng)
     yield Case("help-example", ["sim.new single 1 - -", f"sim.load {rvasmgen.hx(rvasmgen.HELP_EXAMPLE)}", "sim.run 400", "sim.arch"], None,
                {"text": rvasmgen.HELP_EXAMPLE, "kind": "help"})
     allc = [(h << 12) | l for h in HIGHS for l in LOWS]
